@@ -520,3 +520,64 @@ class Update(Spec):
         ok = all(own_index_only(v[k].fn(pp), pp, names) for k in ("X", "Y", "Z", "alive", "active", "pid") if isinstance(v.get(k), Arr))
         out.append(("C14: element p of every state variable after the step depends on particle p's own data only (no read of another particle, no reduction over particles)", ok))
         return out
+
+
+# ---------------------------------------------------------------- Tracker.__init__
+# The pre-state the contracts of update/EF/RK2/RK4/diffuse assume (make_tracker) is what the constructor establishes.
+
+
+class TrackerInit(Spec):
+    """__init__: dt in seconds, advection normalised to one of "", EF, RK2, RK4 with ``advect`` bound to the method of
+    that name, switches diffusion == (D > 0), vertdiff == (Dz > 0), coefficients stored unchanged, an own random generator."""
+
+    func = "ladim.tracker.Tracker.__init__"
+    properties = ("C01", "C11", "C15")
+    inline = ()
+
+    def __init__(self, advection):
+        self.advection = advection
+        self.name = f"Tracker.__init__[advection={advection!r}]"
+
+        def default_rng(interp, *a, **k):
+            return Rng()
+
+        self.externals = {"numpy.random.default_rng": default_rng}
+
+    def inputs(self, cx):
+        from .timekeeper import make_timer
+
+        timer = make_timer(cx)
+        return Args(self=Obj("ladim.tracker.Tracker"), advection=self.advection, diffusion=z3.Real("diffusion_given"), vertdiff=z3.Real("vertdiff_given"),
+                    vertical_advection=z3.Bool("vertadv_given"), modules=dict(time=timer))
+
+    def call_args(self, a):
+        return [a.self], dict(advection=a.advection, diffusion=a.diffusion, vertdiff=a.vertdiff, vertical_advection=a.vertical_advection, modules=a.modules)
+
+    def model(self, cx, a):
+        return NotImplemented
+
+    def ensures(self, cx, a, result):
+        from pyvc.interp import BoundMethod
+
+        t = a.self.attrs
+        valid = self.advection in ("EF", "RK2", "RK4")
+        out = [
+            ("C01: dt is the model time step in seconds", V.s_cmp("==", t.get("dt", -1), z3.ToReal(a.modules["time"].attrs["dt"]))),
+            ("C01: advection is the requested scheme, or '' for anything that is not EF, RK2 or RK4", t.get("advection") == (self.advection if valid else "")),
+            ("C11: diffusion switch == (coefficient > 0)", V.s_cmp("==", t.get("diffusion"), a.diffusion > 0)),
+            ("C11: D == the configured horizontal coefficient", V.s_cmp("==", t.get("D", -1), a.diffusion)),
+            ("C11/C15: vertical diffusion switch == (coefficient > 0)", V.s_cmp("==", t.get("vertdiff"), a.vertdiff > 0)),
+            ("C11/C15: Dz == the configured vertical coefficient", V.s_cmp("==", t.get("Dz", -1), a.vertdiff)),
+            ("C15: vertical advection switch as configured", V.s_cmp("==", t.get("vertical_advection"), a.vertical_advection)),
+            ("C11: the tracker owns a random generator, nothing drawn yet", isinstance(t.get("rng"), Rng) and t["rng"].draws == 0),
+            ("modules kept", t.get("modules") is a.modules),
+        ]
+        if valid:
+            adv = t.get("advect")
+            out.append(("C01: advect is the method that implements the requested scheme", isinstance(adv, BoundMethod) and adv.obj is a.self and adv.func.qual == f"ladim.tracker.Tracker.{self.advection}"))
+        else:
+            out.append(("C01: no advection method bound for an invalid/empty scheme name", "advect" not in t))
+        return out
+
+
+TRACKER_INIT_UNITS = [TrackerInit(s) for s in ("EF", "RK2", "RK4", "", "Euler")]
